@@ -52,8 +52,9 @@ func proxied[Q, R proto.Message](p *proxy, method string, ctx gocontext.Context,
 	atomic.AddInt32(&e.inFlight, 1)
 	defer atomic.AddInt32(&e.inFlight, -1)
 	e.mu.Lock()
-	reqHook, respHook, svc := e.GRPCRequestHook, e.GRPCHook, e.svc
+	reqHook, respHook := e.GRPCRequestHook, e.GRPCHook
 	e.mu.Unlock()
+	svc, _ := e.current()
 	if reqHook != nil && reqHook(method, proto.Clone(in)) {
 		return zero, status.Error(codes.Unavailable, "request dropped (injected)")
 	}
